@@ -441,7 +441,11 @@ def e2e_files(spec):
 def e2e_eval(spec, verbose=False):
     """run with and without --keep_prep; returns (violation|None, info)"""
     files = e2e_files(spec)
-    base = ["--freq", str(spec.get("freq", 512))]
+    # the statement holds whatever else is switched on: vary switches that change which OTHER stages are
+    # registered around the prep sweep (derived from the scenario so that a case replays identically)
+    extra = [[], [], ["--drop_globals"], ["-t"], ["--disable_tb"], ["--drop_globals", "-t"]][
+        (sum(len(f) for f in spec["ranks"]) + len(spec["ranks"])) % 6]
+    base = ["--freq", str(spec.get("freq", 512))] + extra
     with contextlib.redirect_stdout(io.StringIO()):
         rk = stage.e2e(base + ["--keep_prep"], files)
         rd = stage.e2e(base, files)
